@@ -1,4 +1,5 @@
-import TR.Lemmas.CircuitState
+import TR.Lemmas.CircuitTrace
+import TR.Lemmas.CircuitRefine
 /-!
 # C09 — a half-open breaker lets through at most `permitted_calls_in_half_open` trial calls
 
@@ -19,19 +20,81 @@ theorem trials_accounting (cfg : Cfg) (ops : List Op) (h : (run cfg ops).circ.st
   ⟨(sinv_reachable cfg ops).calls h, (sinv_reachable cfg ops).circ.hoAdm h⟩
 
 /-- Trial calls that reached the inner service in the current half-open episode, not counting
-those that were cancelled, never exceed `permitted` — however many callers arrive at once. -/
+those that were cancelled, never exceed `permitted` — however many callers arrive at once.
+(`released` is a ghost counter of the model; `released_is_cancelled_since` below says which events of the log it counts, and
+`trials_in_flight_bounded_log` is this statement over the log alone.) -/
 theorem trials_in_flight_bounded (cfg : Cfg) (ops : List Op) (hp : cfg.permitted ≥ 1)
     (h : (run cfg ops).circ.st = .halfOpen) :
     callsSince (run cfg ops).log - (run cfg ops).circ.released ≤ cfg.permitted := by
   have := trials_accounting cfg ops h
   omega
 
-/-- Without cancellations: at most `permitted` inner calls between entering half-open and the decision. -/
+/-- Without cancellations: at most `permitted` inner calls between entering half-open and the decision.
+(Kept as a lemma: its hypothesis is about the ghost `released`. `trials_bounded_no_cancellations` has the hypothesis on the
+operations, `trials_bounded_every_prefix` on the log.) -/
 theorem trials_bounded (cfg : Cfg) (ops : List Op) (hp : cfg.permitted ≥ 1)
     (h : (run cfg ops).circ.st = .halfOpen) (hnc : (run cfg ops).circ.released = 0) :
     callsSince (run cfg ops).log ≤ cfg.permitted := by
   have := trials_accounting cfg ops h
   omega
+
+/-! ## The same over the event log alone
+
+`cancelledSince log` (Lemmas/CircuitTrace.lean) reads the log: of the `inner_call c k` events after the last `transition` event,
+how many were followed by `inner_drop c k` (the caller cancelled the trial) or `inner_done c k panic` (the trial panicked) —
+matched by the serial number `k`. Cancellations and panics of calls started BEFORE the last transition (leftovers of earlier
+episodes, calls admitted while closed) are not counted: they hold no slot of this episode. -/
+
+/-- **The ghost is the log.** In every reachable half-open state the slots given back in the current episode (`released`, the
+counter `release_trial` would keep) are exactly the trials of this episode that the log shows as cancelled or panicked. -/
+theorem released_is_cancelled_since (cfg : Cfg) (ops : List Op) (h : (run cfg ops).circ.st = .halfOpen) :
+    (run cfg ops).circ.released = cancelledSince (run cfg ops).log := by
+  rw [← (tinv_reachable cfg ops).canc h]
+  exact (tr_fields cfg _).2.2.2.1
+
+/-- … and the trials of this episode still in flight are exactly the running calls whose `inner_call` event stands after the
+last transition event (`r.k` is among the serial numbers the checker collected since then). -/
+theorem current_trials_are_the_calls_since (cfg : Cfg) (ops : List Op) (h : (run cfg ops).circ.st = .halfOpen)
+    (r : Caller) (hr : r ∈ (run cfg ops).running) :
+    r.k ∈ (tr cfg (run cfg ops).log).ks ↔ r.ep = some (run cfg ops).circ.episode :=
+  (tinv_reachable cfg ops).ks h r hr
+
+/-- `trials_in_flight_bounded` over the log alone: inner calls started since the breaker became half-open, minus those of them
+the log shows as cancelled / panicked, never exceed `permitted`. -/
+theorem trials_in_flight_bounded_log (cfg : Cfg) (ops : List Op) (hp : cfg.permitted ≥ 1)
+    (h : (run cfg ops).circ.st = .halfOpen) :
+    callsSince (run cfg ops).log - cancelledSince (run cfg ops).log ≤ cfg.permitted := by
+  rw [← released_is_cancelled_since cfg ops h]
+  exact trials_in_flight_bounded cfg ops hp h
+
+/-- **Every half-open episode of every log, at every event.** Cut a reachable log anywhere (also in the middle of a step): if the
+last transition event of the prefix went to half-open, then the `inner_call` events after it, minus those among them that were
+cancelled or panicked, are at most `permitted`. Since every half-open episode of the history is the tail of such a prefix, this
+bounds each episode of the whole log, not only the current one. -/
+theorem trials_bounded_every_prefix (cfg : Cfg) (ops : List Op) (hp : cfg.permitted ≥ 1) (n : Nat)
+    (h : lastTarget ((run cfg ops).log.take n) = .halfOpen) :
+    callsSince ((run cfg ops).log.take n) - cancelledSince ((run cfg ops).log.take n) ≤ cfg.permitted := by
+  have hok := tr_ok_take cfg _ n (tinv_reachable cfg ops).ok
+  have hf := tr_fields cfg ((run cfg ops).log.take n)
+  have hg := (tr_ok_good cfg _ hok).2
+  rw [hf.1, hf.2.2.1, hf.2.2.2.1] at hg
+  have := hg h
+  omega
+
+/-- **Without cancellations** — a history with no `drop` operation and no inner call scripted to panic (`noCancelOp`) — the log
+contains no `inner_drop` / `inner_done … panic` event, nothing is ever given back (`released = 0` is DERIVED, not assumed), and
+in every half-open episode, at every event, at most `permitted` inner calls have been started. -/
+theorem trials_bounded_no_cancellations (cfg : Cfg) (ops : List Op) (hp : cfg.permitted ≥ 1)
+    (hops : ∀ op ∈ ops, noCancelOp op = true) :
+    (∀ p ∈ (run cfg ops).log, isCancel p.2 = false) ∧
+    ((run cfg ops).circ.st = .halfOpen → (run cfg ops).circ.released = 0) ∧
+    (∀ n, lastTarget ((run cfg ops).log.take n) = .halfOpen → callsSince ((run cfg ops).log.take n) ≤ cfg.permitted) := by
+  have hnc := (nc_reachable cfg ops hops).log
+  refine ⟨hnc, fun h => ?_, fun n h => ?_⟩
+  · rw [released_is_cancelled_since cfg ops h]; exact cancelledSince_zero _ hnc
+  · have := trials_bounded_every_prefix cfg ops hp n h
+    rw [cancelledSince_zero _ (fun p hp' => hnc p (List.mem_of_mem_take hp'))] at this
+    exact this
 
 /-- A caller arriving when all trial slots are taken is rejected in the same step (open-circuit
 error or fallback); the circuit is untouched and no inner call is made. Holds in any state. -/
@@ -185,6 +248,121 @@ example :
                 .poll 2, .poll 3, .poll 4, .poll 5]
     (run cfg pre).circ.st = .halfOpen ∧ callsSince (run cfg pre).log = 2 ∧ (run cfg pre).circ.hoAdmitted = 2 ∧
     (run cfg (pre ++ [.drop 2])).circ.hoAdmitted = 1 ∧ (run cfg (pre ++ [.drop 2])).circ.released = 1 := by
+  decide
+
+/-- Non-vacuity of the log-level statements: the same history; the log shows one cancelled trial (`inner_drop 2 1`) after the
+`→ half-open` event, so `cancelledSince = 1 = released`; a trial that panics counts as well; cancelling call 1 — started before
+the transition — does not. The history up to the drops has no cancelling operation (`noCancelOp`), reaches half-open and
+starts exactly `permitted` inner calls in the episode. -/
+example :
+    let cfg : Cfg := { size := 1, minCalls := 1, waitMs := 10, permitted := 2 }
+    let pre := [Op.arrive 9 ⟨900, .ok⟩ 0, .poll 9, .arrive 1 ⟨0, .err 1⟩ 0, .poll 1, .adv 10,
+                .arrive 2 ⟨50, .ok⟩ 0, .arrive 3 ⟨50, .panic⟩ 0, .arrive 4 ⟨50, .ok⟩ 0, .poll 2, .poll 3, .poll 4]
+    (∀ op ∈ pre.take 6 ++ [Op.arrive 4 ⟨50, .ok⟩ 0, .poll 2, .poll 4], noCancelOp op = true) ∧
+    (run cfg pre).circ.st = .halfOpen ∧ callsSince (run cfg pre).log = 2 ∧ cancelledSince (run cfg pre).log = 0 ∧
+    cancelledSince (run cfg (pre ++ [.drop 2])).log = 1 ∧ (run cfg (pre ++ [.drop 2])).circ.released = 1 ∧
+    cancelledSince (run cfg (pre ++ [.drop 2, .adv 50, .poll 3])).log = 2 ∧
+    (run cfg (pre ++ [.drop 2, .adv 50, .poll 3])).circ.released = 2 ∧
+    cancelledSince (run cfg (pre ++ [.drop 9])).log = 0 ∧ (run cfg (pre ++ [.drop 9])).circ.released = 0 ∧
+    lastTarget ((run cfg (pre ++ [.drop 2, .adv 50, .poll 3])).log.take 7) = .halfOpen := by
+  decide
+
+/-! ## Callers beyond the permitted number: what the log shows; the decision -/
+
+/-- `excess_rejected` read on the log: the step of a caller that finds all trial slots taken appends, at that instant, its
+open-circuit error — or, with a fallback, `fallback_call` followed at most by that fallback's own value — and nothing else:
+no `inner_call`, no transition. -/
+theorem excess_rejected_log (cfg : Cfg) (s : State) (f : Fresh)
+    (hst : s.circ.st = .halfOpen) (hfull : ¬ s.circ.hoAdmitted < cfg.permitted) :
+    (pollFresh cfg s f).circ = s.circ ∧ (pollFresh cfg s f).running = s.running ∧
+    ∃ rest, (pollFresh cfg s f).log =
+        s.log ++ (s.now, if cfg.fallback then CEv.fbCall f.c else CEv.result f.c .openCircuit) :: rest ∧
+      ∀ p ∈ rest, p = (s.now, CEv.result f.c (fbRes f.c f.fb.out)) := by
+  rw [excess_rejected cfg s f hst hfull]
+  unfold rejected
+  by_cases hfb : cfg.fallback = true
+  · simp only [hfb, if_true]
+    unfold startFallback
+    split
+    · exact ⟨rfl, rfl, [(s.now, CEv.result f.c (fbRes f.c f.fb.out))], rfl, by simp⟩
+    · exact ⟨rfl, rfl, [], rfl, by simp⟩
+  · simp only [hfb]
+    exact ⟨rfl, rfl, [], rfl, by simp⟩
+
+/-- **"… before it decides to close or re-open."** What the code decides on, precisely (`record_success` / `record_failure`,
+circuit.rs): while half-open, ANY recorded failure re-opens the breaker, and the success that brings `half_open_successes` to
+`permitted` closes it — whether or not the recorded call was a trial of this episode (`own`). `half_open_successes` counts the
+successes of leftover calls too (admitted while closed, or in an earlier episode, and completing now): such a call can close —
+or re-open — the breaker while the current trials are still in flight. The bound on trial calls is not affected; "after
+`permitted` successful TRIAL calls" is not what the code waits for. -/
+theorem half_open_decision (cfg : Cfg) (c : Circuit) (dur now : Nat) (own : Bool) (h : c.st = .halfOpen) :
+    (record cfg c true dur now own).1.st = .opened ∧
+    (c.hoSuccesses + 1 ≥ cfg.permitted → (record cfg c false dur now own).1.st = .closed) ∧
+    (c.hoSuccesses + 1 < cfg.permitted → (record cfg c false dur now own).1.st = .halfOpen ∧
+      (record cfg c false dur now own).1.hoSuccesses = c.hoSuccesses + 1 ∧
+      (record cfg c false dur now own).1.hoAdmitted = c.hoAdmitted) := by
+  have hf := fun fail => pushOutcome_frame cfg c { t := now, fail := fail, slow := isSlow cfg dur } now
+  refine ⟨?_, ?_, ?_⟩
+  · rw [record_half cfg c true dur now own h]; simp only [if_true]; exact transitionTo_st ..
+  · intro hge
+    rw [record_half cfg c false dur now own h]
+    have := (hf false).2.2.2.2.1
+    simp only [Bool.false_eq_true, if_false]
+    rw [if_pos (by rw [this]; exact hge)]
+    exact transitionTo_st ..
+  · intro hlt
+    rw [record_half cfg c false dur now own h]
+    have h5 := (hf false).2.2.2.2.1
+    simp only [Bool.false_eq_true, if_false]
+    rw [if_neg (by rw [h5]; omega)]
+    exact ⟨(hf false).1.trans h, by simp [h5], (hf false).2.2.2.1⟩
+
+/-- Non-vacuity of the decision by a LEFTOVER (`permitted = 2`, window 4): call 1 is admitted while closed and stays in flight;
+`force_open`, the wait passes, trial 2 half-opens the breaker and succeeds (1 of 2 successes), trial 3 is in flight; now the
+leftover 1 completes successfully: that is the second success, the breaker closes — with trial 3 still in flight, after only one
+successful trial. Two inner calls were started in the episode (2 and 3): the bound holds. -/
+example :
+    let cfg : Cfg := { size := 4, minCalls := 4, waitMs := 10, permitted := 2 }
+    let pre := [Op.arrive 1 ⟨100, .ok⟩ 0, .poll 1, .forceOpen, .adv 10, .arrive 2 ⟨0, .ok⟩ 0, .poll 2,
+                .arrive 3 ⟨500, .ok⟩ 0, .poll 3]
+    (run cfg pre).circ.st = .halfOpen ∧ (run cfg pre).circ.hoSuccesses = 1 ∧ (run cfg pre).circ.hoAdmitted = 2 ∧
+    callsSince (run cfg pre).log = 2 ∧
+    (run cfg (pre ++ [.adv 90, .poll 1])).circ.st = .closed ∧ (run cfg (pre ++ [.adv 90, .poll 1])).running.length = 1 := by
+  decide
+
+/-! ## `TrialGuard::drop` gives up after 1024 failed `try_lock`s (lib.rs)
+
+`Drop for TrialGuard` spins `try_lock` at most 1024 times (`std::thread::yield_now` in between) and then returns WITHOUT having
+called `release_trial`. `dropRunning` / the panic branch of `complete` model the release as always happening. On one thread the
+lock can only be held at that moment by a frame further up the same stack — i.e. the trial future is destroyed from inside a
+user callback the breaker runs under its mutex (an event listener, the failure classifier); under a multi-thread runtime, by
+another thread that keeps the mutex for the whole spin. Neither is produced by the harness (its callbacks only log): the release
+is MODELLED, NOT VERIFIED for these situations. What the code does then is `dropRunningLost`: the call is gone, the circuit is
+untouched. -/
+
+/-- a cancelled trial whose `TrialGuard` could not take the lock: the slot is not given back -/
+def dropRunningLost (s : State) (c : Nat) (r : Caller) : State :=
+  emit { s with running := s.running.eraseP (·.c == c) } [.innerDrop r.c r.k]
+
+/-- A lost release cannot make the breaker let MORE callers through: the circuit is exactly what it was with the trial still in flight, so a
+caller who finds the slots taken is still rejected (the bound on trial calls is not endangered) … -/
+theorem lost_release_admits_nobody (cfg : Cfg) (s : State) (c : Nat) (r : Caller) (f : Fresh)
+    (hst : s.circ.st = .halfOpen) (hfull : ¬ s.circ.hoAdmitted < cfg.permitted) :
+    (dropRunningLost s c r).circ = s.circ ∧
+    pollFresh cfg (dropRunningLost s c r) f = rejected cfg (dropRunningLost s c r) f :=
+  ⟨rfl, excess_rejected cfg _ f hst hfull⟩
+
+/-- … but the slot is leaked: `permitted = 1`, the only trial is cancelled and its release lost — the breaker is half-open with
+no call in flight and its one slot taken (the situation `no_wedge` excludes for the model), and the next caller is rejected,
+now and however much later: only an operator's override gets it out. -/
+example :
+    let cfg : Cfg := { waitMs := 10, permitted := 1 }
+    let s := run cfg [Op.forceOpen, .adv 10, .arrive 1 ⟨500, .ok⟩ 0, .poll 1]
+    let w := dropRunningLost s 1 ⟨1, 0, 10, 510, .ok, 0, some 2⟩
+    w.circ.st = .halfOpen ∧ w.running.length = 0 ∧ w.circ.hoAdmitted = 1 ∧
+    (stepS cfg (stepS cfg (stepS cfg w (.adv 1000000)) (.arrive 2 ⟨0, .ok⟩ 0)) (.poll 2)).log.getLast?
+      = some (1000010, CEv.result 2 .openCircuit) ∧
+    (stepS cfg (stepS cfg (stepS cfg w (.adv 1000000)) (.arrive 2 ⟨0, .ok⟩ 0)) (.poll 2)).circ.st = .halfOpen := by
   decide
 
 /-! ## Event listeners
